@@ -614,7 +614,11 @@ fn run_program(ctx: &Ctx, shard: usize, r: &mut Rng, p: &[Stmt], src: &str, pars
             None => if parsed { ctx.fail("C02", "panics", what(format!("{mode} panics on a parsed program")), replay.clone()) },
             Some(Ok(_)) => if !lay.wf() { ctx.fail("C02", "accepts_ill_formed", what(format!("{mode} accepts a program violating {:?}", lay.violated)), replay.clone()) },
             Some(Err(e)) => {
-                if lay.wf() { ctx.fail("C02", "rejects_well_formed", what(format!("{mode} rejects a well-formed program with {:?}", e.kind)), replay.clone()) }
+                if lay.wf() {
+                    ctx.fail("C02", "rejects_well_formed", what(format!("{mode} rejects a well-formed program with {:?}", e.kind)), replay.clone());
+                    // no image, hence no statement placed where its .orig and the sizes before it imply
+                    ctx.fail("C01", "no_image_for_well_formed", what(format!("{mode} gives no object file for a well-formed program ({:?})", e.kind)), replay.clone());
+                }
                 else if !v_of(&e.kind).is_some_and(|v| lay.violated.contains(&v)) {
                     ctx.fail("C02", "wrong_error_kind", what(format!("{mode} reports {:?} but the violated conditions are {:?}", e.kind, lay.violated)), replay.clone())
                 }
@@ -681,9 +685,14 @@ fn run_program(ctx: &Ctx, shard: usize, r: &mut Rng, p: &[Stmt], src: &str, pars
     let in_p1 = L(vec![t_src(Some(src)), stmts_t.clone()]);
     ctx.case_to(shard, "asm.pass1", &in_p1, &t_res(&sym_debug, t_symtab));
     ctx.case_to(shard, "asm.pass1", &L(vec![t_src(None), stmts_t]), &t_res(&sym_plain, t_symtab));
+    let rep23 = format!("asm.pass1\t{in_p1}");
+    if let (true, Some(Err(e))) = (lay.wf(), &sym_debug) {
+        // a well-formed program without a symbol table: none of its labels / lines can be looked up
+        if !lay.binds.is_empty() { ctx.fail("C23", "no_table_for_well_formed", what(format!("SymbolTable::new fails with {:?} on a well-formed program defining {} label(s)", e.kind, lay.binds.len())), rep23.clone()); }
+        ctx.fail("C24", "no_table_for_well_formed", what(format!("SymbolTable::new fails with {:?} on a well-formed program", e.kind)), rep23.clone());
+    }
     let Some(Ok(sym)) = &sym_debug else { return };
     let sym_t = t_symtab(sym);
-    let rep23 = format!("asm.pass1\t{in_p1}");
 
     // names: every label of the program in several spellings, plus absent ones
     let mut names: Vec<String> = vec![];
